@@ -9,6 +9,7 @@ def M(name, props, expect, edits, **kw):
 
 # ---------------------------------------------------------------- C02
 M("c02_without_shrink_copy_old", ["C02"], ["C02.R1"], [
+    ("src/without_dealloc.rs", "            _old_layout: Layout,", "            old_layout: Layout,"),
     ("src/without_dealloc.rs", "ptr.copy_to_nonoverlapping(new_ptr, new_layout.size())",
      "ptr.copy_to_nonoverlapping(new_ptr, old_layout.size())")])
 M("c02_grow_down_always_nonoverlapping", ["C02"], ["C02.R2"], [
@@ -820,3 +821,95 @@ M("c16_split_at_wrong_bound", ["C16"], ["C16.R2"], [
         }
 
         // SAFETY: `[ptr; mid]`""")])
+
+# ---------------------------------------------------------------- C06
+M("c06_clear_drops_before_set_len", ["C06"], ["C06.R1"], [
+    ("src/bump_box.rs", """            self.set_len(0);
+            elems.drop_in_place();""", """            elems.drop_in_place();
+            self.set_len(0);""")])
+M("c06_rev_truncate_drops_before_len", ["C06"], ["C06.R1"], [
+    ("src/mut_bump_vec_rev.rs", """            self.len = len;
+            slice.drop_in_place();""", """            slice.drop_in_place();
+            self.len = len;""")])
+M("c06_append_takes_before_reserve", ["C06"], ["C06.R3"], [
+    ("src/bump_vec.rs", """            let slice = NonNull::from(owned_slice.owned_slice_ref());
+            self.generic_reserve(slice.len())?;
+
+            let src = slice.cast::<T>().as_ptr();
+            let dst = self.as_mut_ptr().add(self.len());
+            ptr::copy_nonoverlapping(src, dst, slice.len());
+
+            owned_slice.take_owned_slice();""", """            let slice = NonNull::from(owned_slice.owned_slice_ref());
+            owned_slice.take_owned_slice();
+            self.generic_reserve(slice.len())?;
+
+            let src = slice.cast::<T>().as_ptr();
+            let dst = self.as_mut_ptr().add(self.len());
+            ptr::copy_nonoverlapping(src, dst, slice.len());
+""")])
+M("c06_append_forgets_take", ["C06"], ["C06.R3"], [
+    ("src/fixed_bump_vec.rs", """            owned_slice.take_owned_slice();""", """            if slice.len() > 1 { owned_slice.take_owned_slice(); }""")])
+M("c06_retain_guard_after_first_drop", ["C06"], ["C06.R2"], [
+    ("src/bump_box.rs", """        let mut g = PanicGuard {
+            v: self,
+            read: read + 1,
+            write: read,
+            original_len,
+        };
+        // SAFETY: previous `read` is always less than original_len.
+        unsafe { ptr::drop_in_place(&mut *g.v.as_mut_ptr().add(read)) };""", """        // SAFETY: previous `read` is always less than original_len.
+        unsafe { ptr::drop_in_place(&mut *self.as_mut_ptr().add(read)) };
+        let mut g = PanicGuard {
+            v: self,
+            read: read + 1,
+            write: read,
+            original_len,
+        };""")])
+M("c06_extract_if_index_before_predicate", ["C06"], ["C06.R2b"], [
+    ("src/owned_slice/extract_if.rs", """                let drained = (self.filter)(value_ptr.as_mut());
+
+                // Update the index *after* the predicate is called. If the index
+                // is updated prior and the predicate panics, the element at this
+                // index would be leaked.
+                self.index += 1;""", """                self.index += 1;
+                let drained = (self.filter)(value_ptr.as_mut());""")])
+M("c06_extend_with_without_set_len_guard", ["C06"], ["C06.R2"], [
+    ("src/fixed_bump_vec.rs", """            let mut local_len = self.initialized.set_len_on_drop();
+
+            // Write all elements except the last one
+            for _ in 1..n {
+                pointer::write_with(ptr, || value.clone());
+                ptr = ptr.add(1);
+
+                // Increment the length in every step in case clone() panics
+                local_len.increment_len(1);
+            }
+
+            if n > 0 {
+                // We can write the last element directly without cloning needlessly
+                ptr.write(value);
+                local_len.increment_len(1);
+            }""", """            let mut written = 0;
+            // Write all elements except the last one
+            for _ in 1..n {
+                pointer::write_with(ptr, || value.clone());
+                ptr = ptr.add(1);
+                written += 1;
+            }
+
+            if n > 0 {
+                // We can write the last element directly without cloning needlessly
+                ptr.write(value);
+                written += 1;
+            }
+            let new_len = self.len() + written;
+            self.set_len(new_len);""")])
+M("c06_bump_box_drop_forgets_pointee", ["C06"], ["C06.R4"], [
+    ("src/bump_box.rs", """impl<T: ?Sized> Drop for BumpBox<'_, T> {
+    #[inline(always)]
+    fn drop(&mut self) {
+        unsafe { self.ptr.drop_in_place() }""", """impl<T: ?Sized> Drop for BumpBox<'_, T> {
+    #[inline(always)]
+    fn drop(&mut self) {
+        let _ = &self.ptr;
+        if false { unsafe { self.ptr.drop_in_place() } }""")])
